@@ -398,10 +398,23 @@ pub fn dependency_graph(c: &mut Choices, plant_cycle: bool) -> GraphCase
 					{
 						Kind::Struct =>
 						{
-							members.push(format!("\tin{}_{}: {},", i, d, name(*d)));
+							// embedded once, or twice through an array whose
+							// length is a named constant
+							let twice = c.chance(1, 3);
+							if twice
+							{
+								// a constant takes part: a cycle through this
+								// member may be reported as E415 or E416
+								any_cycle_code = true;
+								members.push(format!("\tmany{}_{}: [LEN2]{},", i, d, name(*d)));
+							}
+							else
+							{
+								members.push(format!("\tin{}_{}: {},", i, d, name(*d)));
+							}
 							let a = align[*d];
 							off = (off + a - 1) / a * a;
-							off += value[*d];
+							off += value[*d] * if twice { 2 } else { 1 };
 							maxa = maxa.max(a);
 						}
 						Kind::Const =>
@@ -439,6 +452,7 @@ pub fn dependency_graph(c: &mut Choices, plant_cycle: bool) -> GraphCase
 	}
 	main.push_str("\treturn: 0\n}");
 	decls.push(main);
+	decls.push("const LEN2: usize = 2;".to_string());
 	// any order
 	for i in (1..decls.len()).rev()
 	{
@@ -583,6 +597,9 @@ fn type_cells() -> Vec<(String, Option<u16>, &'static str)>
 	add("word64 V\n{\n\tx: &i32,\n}\n".into(), Some(356), "word-member");
 	add("word128 V\n{\n\tx: []u8,\n}\n".into(), Some(356), "word-member");
 	add("word32 V\n{\n\tx: [4]u8,\n}\n".into(), Some(356), "word-member");
+	add("word64 V\n{\n\tx: usize,\n}\n".into(), Some(356), "word-member");
+	add("word128 V\n{\n\ttag: u8,\n\tx: usize,\n}\n".into(), Some(356), "word-member");
+	add("word64 V\n{\n\tx: char8,\n\ty: S,\n}\n".into(), Some(356), "word-member");
 	// extern signatures
 	for t in ["i8", "i16", "i32", "i64", "u8", "u16", "u32", "u64", "usize", "[]u8", "&i32"]
 	{
